@@ -311,20 +311,7 @@ func init() {
 	reg("fmt.Fprint", func(fr *frame, args []value) value { return fprintTo(fr, args[0], args[1].([]value), false) })
 	reg("fmt.Fprintln", func(fr *frame, args []value) value { return fprintTo(fr, args[0], args[1].([]value), true) })
 	reg("fmt.Fprintf", func(fr *frame, args []value) value {
-		format := args[1].(string)
-		parts := args[2].([]value)
-		if format == "%s" && len(parts) == 1 {
-			if it, ok := parts[0].(iface); ok {
-				switch it.v.(type) {
-				case string, symStr:
-					return writeTo(fr, args[0], strBytes(it.v))
-				}
-			}
-		}
-		if anySym(parts) {
-			unsup("fmt.Fprintf(%q) with a symbolic operand", format)
-		}
-		return writeTo(fr, args[0], strBytes(fmt.Sprintf(format, hostArgs(fr, parts)...)))
+		return writeTo(fr, args[0], formatBytes(fr, args[1].(string), args[2].([]value)))
 	})
 	reg("fmt.Sprintf", func(fr *frame, args []value) value {
 		return fmt.Sprintf(args[0].(string), hostArgs(fr, args[1])...)
